@@ -70,7 +70,7 @@ Lemma pay_close_ev : forall ps s p id burn s1 e evs st,
   ev_inv (upd_prop id (fun q => close_as q st) ps) (evs ++ e).
 Proof.
   intros until st. intros I -> Hf Ho Hp Hc.
-  apply pay_out_some in Hp as (A & _ & _ & _ & _ & _ & _ & ->).
+  apply pay_out_some in Hp as (A & _ & _ & _ & _ & _ & ->).
   eapply ev_close with (p := p) (g := fun q => close_as q st); eauto.
   intro pid. rewrite (find_prop_id _ _ _ Hf). apply pays_map. intros da. destruct burn; lia.
 Qed.
@@ -90,6 +90,20 @@ Proof.
     destruct (bad_inactive_dequeued P); reflexivity.
 Qed.
 
+Lemma exec_msgs_ev : forall e ms s s' evs,
+  ev_inv (props s) evs -> exec_msgs e s ms = Some s' -> ev_inv (props s') evs.
+Proof.
+  induction ms as [|m r IH]; cbn; intros s s' evs I H.
+  - inversion H; subst; assumption.
+  - destruct (exec_one e s m) as [s1|] eqn:E; [|discriminate]. eapply IH; [|exact H].
+    unfold exec_one in E. destruct (m_act m) as [tag| |to amt|pid amt].
+    + inversion E; subst. exact I.
+    + discriminate.
+    + destruct ((0 <? amt) && (amt <=? gov_bal s)); [|discriminate]. inversion E; subst. exact I.
+    + apply gov_deposit_inv in E as [->|(p & Hf & Ho & _ & _ & _ & ->)]; [assumption|]. cbn [props].
+      eapply (ev_keep _ _ _ _ p evs); [exact I|exact Hf|exact Ho|now apply deposited_open|intros; reflexivity|reflexivity].
+Qed.
+
 Lemma process_active_ev : forall P kf stk s id s' e evs,
   ev_inv (props s) evs -> process_active P kf stk s id = Some (s', e) -> ev_inv (props s') (evs ++ e).
 Proof.
@@ -106,16 +120,15 @@ Proof.
   { intro H; inversion H; subst. rewrite app_nil_r. cbn [props set_props].
     eapply ev_keep with (p := p) (g := fun q => converted P q v); eauto. }
   destruct (pay_out s p (burns v)) as [[s1 e1]|] eqn:Hp; [|discriminate].
-  apply pay_out_some in Hp as (A & _ & _ & _ & _ & _ & _ & ->).
+  apply pay_out_some in Hp as (A & _ & _ & _ & _ & _ & ->).
   assert (Hpays : forall pid,
             pays pid (map (fun da => EvPay (p_id p) (fst da) (if burns v then 0 else snd da)
                                            (if burns v then snd da else 0)) (p_deps p))
             = if id =? pid then p_deps p else []).
   { intro pid. rewrite (find_prop_id _ _ _ Hf). apply pays_map. intros da. destruct (burns v); lia. }
   destruct (passes v).
-  - destruct (exec_msgs s1 (p_msgs p)) as [s2|] eqn:He.
-    + apply exec_msgs_frame in He as (A2 & _).
-      intro H; inversion H; subst. cbn [props set_props]. rewrite A2, A.
+  - match goal with |- context [exec_msgs ?e ?sp ?ms] => destruct (exec_msgs e sp ms) as [s2|] eqn:He end.
+    + intro H; inversion H; subst. eapply exec_msgs_ev; [|exact He]. cbn [props set_props]. rewrite A.
       eapply ev_close with (p := p) (g := fun q => tallied q SPassed v); eauto.
     + intro H; inversion H; subst. cbn [props set_props]. rewrite A.
       eapply ev_close with (p := p) (g := fun q => tallied q SFailed v); eauto.
@@ -141,11 +154,11 @@ Proof.
   - destruct (submit P kf now s proposer ms amt expedited valid bad_denom) as [r0 s0] eqn:E.
     intro H; injection H as <- <- <-. rewrite app_nil_r. destruct r0;
       try (apply submit_err in E; [subst; assumption|discriminate]).
-    apply submit_ok_inv in E as (_ & _ & E). apply add_deposit_ok_inv in E as (p & Hf & Ho & _ & ->).
+    apply submit_ok_inv in E as (_ & _ & _ & E). apply add_deposit_ok_inv in E as (p & Hf & Ho & _ & ->).
     cbn [props] in *.
     eapply (ev_keep _ _ _ _ p evs); [|exact Hf|exact Ho|now apply deposited_open|intros; reflexivity|reflexivity].
     apply ev_fresh; [assumption|apply (wf_ids _ W)|reflexivity].
-  - destruct ((amt <? 0) || ((amt =? 0) && negb bad_denom)); [intro H; injection H as <- <- <-; now rewrite app_nil_r|].
+  - destruct (deposit_msg_invalid amt bad_denom depositor); [intro H; injection H as <- <- <-; now rewrite app_nil_r|].
     destruct (add_deposit P kf now s pid depositor amt bad_denom) as [r0 s0] eqn:E.
     intro H; injection H as <- <- <-. rewrite app_nil_r. destruct r0;
       try (apply add_deposit_err in E; [subst; assumption|discriminate]).
@@ -172,7 +185,7 @@ Proof.
   - destruct (negb authorized); [intro H; injection H as <- <- <-; now rewrite app_nil_r|].
     destruct (negb (cparams_valid cp)); intro H; injection H as <- <- <-; now rewrite app_nil_r.
   - destruct (negb authorized); intro H; injection H as <- <- <-; now rewrite app_nil_r.
-  - destruct (bal s acct + delta <? 0); intro H; injection H as <- <- <-; now rewrite app_nil_r.
+  - destruct ((bal s acct + delta <? 0) || (acct <? 0)); intro H; injection H as <- <- <-; now rewrite app_nil_r.
   - destruct (corrupt s pid) as [r0 s0] eqn:E. intro H; injection H as <- <- <-. rewrite app_nil_r.
     apply corrupt_inv in E as [->|(p & st & Hf & Hst & ->)]; [assumption|]. cbn [props set_props].
     eapply ev_keep with (p := p) (g := fun q => with_status q st); eauto.
@@ -226,7 +239,7 @@ Definition ev_whole (e : event) : Prop := match e with EvPay _ _ r b => r = 0 \/
 
 Lemma pay_out_whole : forall s p burn s1 ev, pay_out s p burn = Some (s1, ev) -> Forall ev_whole ev.
 Proof.
-  intros. apply pay_out_some in H as (_ & _ & _ & _ & _ & _ & _ & ->).
+  intros. apply pay_out_some in H as (_ & _ & _ & _ & _ & _ & ->).
   apply Forall_forall. intros e He. apply in_map_iff in He as (da & <- & _). cbn. destruct burn; auto.
 Qed.
 
@@ -263,8 +276,9 @@ Proof.
         intro X; inversion X; subst. eapply pay_out_whole; eauto. }
     destruct (p_expedited p && negb (passes _)); [intro X; inversion X; constructor|].
     destruct (pay_out s0 p _) as [[s3 e3]|] eqn:Hp; [|discriminate].
-    destruct (passes _); [destruct (exec_msgs s3 (p_msgs p))|]; intro X; inversion X; subst;
-      eapply pay_out_whole; eauto.
+    destruct (passes _);
+      [match goal with |- context [exec_msgs ?e ?sp ?ms] => destruct (exec_msgs e sp ms) end|];
+      intro X; inversion X; subst; eapply pay_out_whole; eauto.
 Qed.
 
 (* ================================================================== how a proposal record evolves *)
@@ -317,6 +331,20 @@ Proof.
     eapply Forall_upd_Q; eauto. apply E_bad_close; [rewrite Hs; reflexivity|auto].
 Qed.
 
+Lemma exec_msgs_Q : forall e ms s s', x_P e = P -> x_kf e = kf ->
+  Forall Q (props s) -> exec_msgs e s ms = Some s' -> Forall Q (props s').
+Proof.
+  intros e ms. induction ms as [|m r IH]; cbn; intros s s' HP Hk F H.
+  - inversion H; subst; assumption.
+  - destruct (exec_one e s m) as [s1|] eqn:E; [|discriminate]. apply (IH s1 s' HP Hk); [|exact H].
+    unfold exec_one in E. destruct (m_act m) as [tag| |to amt|pid amt].
+    + inversion E; subst. exact F.
+    + discriminate.
+    + destruct ((0 <? amt) && (amt <=? gov_bal s)); [|discriminate]. inversion E; subst. exact F.
+    + apply gov_deposit_inv in E as [->|(p & Hf & Ho & Hb & Ha & _ & ->)]; [assumption|]. cbn [props].
+      rewrite HP, Hk. eapply Forall_upd_Q; eauto. constructor; auto; lia.
+Qed.
+
 Lemma process_active_Q : forall stk s id s' e,
   Forall Q (props s) -> process_active P kf stk s id = Some (s', e) -> Forall Q (props s').
 Proof.
@@ -333,9 +361,9 @@ Proof.
   destruct (pay_out s p _) as [[s1 e1]|] eqn:Hp; [|discriminate].
   apply pay_out_some in Hp as (A & _).
   destruct (passes (tally P kf (custom s) stk p)) eqn:Hv.
-  - destruct (exec_msgs s1 (p_msgs p)) as [s2|] eqn:He.
-    + apply exec_msgs_frame in He as (A2 & _). intro H; inversion H; subst.
-      cbn [props set_props]. rewrite A2, A. eapply Forall_upd_Q; eauto. constructor; auto.
+  - match goal with |- context [exec_msgs ?e ?sp ?ms] => destruct (exec_msgs e sp ms) as [s2|] eqn:He end.
+    + intro H; inversion H; subst. eapply exec_msgs_Q; [| | |exact He]; try reflexivity.
+      cbn [props set_props]. rewrite A. eapply Forall_upd_Q; eauto. constructor; auto.
     + intro H; inversion H; subst. cbn [props set_props]. rewrite A.
       eapply Forall_upd_Q; eauto. constructor; auto.
   - intro H; inversion H; subst. cbn [props set_props]. rewrite A.
@@ -349,19 +377,19 @@ Proof.
   - destruct (submit P kf now s proposer ms amt expedited valid bad_denom) as [r0 s0] eqn:E.
     intro H; injection H as <- <- <-. destruct r0;
       try (apply submit_err in E; [subst; assumption|discriminate]).
-    apply submit_ok_inv in E as (Hc & Ha & E). pose proof E as E0.
+    apply submit_ok_inv in E as (Hc & Ha & _ & E). pose proof E as E0.
     apply add_deposit_ok_inv in E as (p & Hf & Ho & _ & ->).
     pose proof (add_deposit_ok_notbad _ _ _ _ _ _ _ _ _ _ E0 Hf) as Hnb.
     cbn [props] in *. eapply Forall_upd_Q; eauto.
     + apply Forall_app; split; [assumption|]. constructor; [now apply Q_new|constructor].
     + now constructor.
-  - destruct ((amt <? 0) || ((amt =? 0) && negb bad_denom)) eqn:Ha; [intro H; injection H as <- <- <-; assumption|].
+  - destruct (deposit_msg_invalid amt bad_denom depositor) eqn:Ha; [intro H; injection H as <- <- <-; assumption|].
     destruct (add_deposit P kf now s pid depositor amt bad_denom) as [r0 s0] eqn:E.
     intro H; injection H as <- <- <-. destruct r0;
       try (apply add_deposit_err in E; [subst; assumption|discriminate]).
     pose proof E as E0. apply add_deposit_ok_inv in E as (p & Hf & Ho & _ & ->). cbn [props].
     pose proof (add_deposit_ok_notbad _ _ _ _ _ _ _ _ _ _ E0 Hf) as Hnb.
-    apply orb_false_elim in Ha as [Ha _]. apply Z.ltb_ge in Ha.
+    apply deposit_msg_valid in Ha as [Ha _].
     eapply Forall_upd_Q; eauto. now constructor.
   - destruct (vote s pid voter opts weighted) as [r0 s0] eqn:E.
     intro H; injection H as <- <- <-.
@@ -381,7 +409,7 @@ Proof.
   - destruct (negb authorized); [intro H; injection H as <- <- <-; assumption|].
     destruct (negb (cparams_valid cp)); intro H; injection H as <- <- <-; assumption.
   - destruct (negb authorized); intro H; injection H as <- <- <-; assumption.
-  - destruct (bal s acct + delta <? 0); intro H; injection H as <- <- <-; assumption.
+  - destruct ((bal s acct + delta <? 0) || (acct <? 0)); intro H; injection H as <- <- <-; assumption.
   - destruct (corrupt s pid) as [r0 s0] eqn:E. intro H; injection H as <- <- <-.
     apply corrupt_inv in E as [->|(p & st & Hf & Hst & ->)]; [assumption|]. cbn [props set_props].
     eapply Forall_upd_Q; eauto. now constructor.
@@ -442,7 +470,8 @@ Proof.
   destruct (p_status p) eqn:Hs; try discriminate.
   - destruct (p_expedited p && negb (passes (tally P kf (custom s) stk p))); [discriminate|].
     destruct (pay_out s p _) as [[s1 e1]|] eqn:Hp.
-    + destruct (passes _); [destruct (exec_msgs s1 (p_msgs p))|]; discriminate.
+    + destruct (passes _); [|discriminate].
+      match goal with |- context [exec_msgs ?e ?sp ?ms] => destruct (exec_msgs e sp ms) end; discriminate.
     + exfalso. eapply pay_out_total; eauto; [eapply find_prop_In; eauto|rewrite Hs; reflexivity].
   - rewrite Hfix. destruct (pay_out s p false) as [[s1 e1]|] eqn:Hp; [discriminate|].
     exfalso. eapply pay_out_total; eauto; [eapply find_prop_In; eauto|rewrite Hs; reflexivity].
@@ -786,8 +815,8 @@ Proof.
   destruct (pay_out s p (burns v)) as [[s1 e1]|] eqn:Hp; [|discriminate].
   apply pay_out_some in Hp as (A & _).
   destruct (passes v) eqn:Pv.
-  - destruct (exec_msgs s1 (p_msgs p)) as [s2|] eqn:He.
-    + apply exec_msgs_frame in He as (A2 & _). inversion H; subst. cbn [props set_props] in Hf'.
+  - match type of H with context [exec_msgs ?e ?sp ?ms] => destruct (exec_msgs e sp ms) as [s2|] eqn:He end.
+    + apply exec_msgs_frame in He as (_ & _ & _ & A2). cbn [x_self props set_props] in A2. inversion H; subst.
       rewrite A2, A, (find_upd_same id (fun q => tallied q SPassed v) _ p) in Hf' by (auto; intros; reflexivity).
       inversion Hf'; subst. cbn. split; [assumption|]. intros _. now apply TP.
     + inversion H; subst. cbn [props set_props] in Hf'.
@@ -799,12 +828,12 @@ Proof.
 Qed.
 
 (* ================================================================== all-or-nothing execution *)
-Lemma exec_msgs_none : forall ms s, exec_msgs s ms = None <->
-  exists pre m post si, ms = pre ++ m :: post /\ exec_msgs s pre = Some si /\ exec_one si m = None.
+Lemma exec_msgs_none : forall e ms s, exec_msgs e s ms = None <->
+  exists pre m post si, ms = pre ++ m :: post /\ exec_msgs e s pre = Some si /\ exec_one e si m = None.
 Proof.
-  induction ms as [|m r IH]; cbn; intros s.
+  intros e. induction ms as [|m r IH]; cbn; intros s.
   - split; [discriminate|]. intros (pre & m & post & si & E & _). destruct pre; discriminate.
-  - destruct (exec_one s m) as [s1|] eqn:E1.
+  - destruct (exec_one e s m) as [s1|] eqn:E1.
     + rewrite IH. split.
       * intros (pre & x & post & si & -> & A & B). exists (m :: pre), x, post, si. cbn. rewrite E1. auto.
       * intros (pre & x & post & si & E & A & B). destruct pre as [|y pre]; cbn in *.
@@ -813,26 +842,37 @@ Proof.
     + split; [|reflexivity]. intros _. exists [], m, r, s. cbn. auto.
 Qed.
 
-(* the part of the state proposal messages can write *)
+(* the part of the state that is not the proposal list *)
 Definition world (s : state) := (ext s, gov_bal s, bal s, burned s, pool_in s, gov_spent s, custom s).
 
+(* the environment the end blocker gives the messages of proposal id, and the state they start on:
+   deposits paid out, the proposal recorded as PASSED (see the remark in M_Gov.process_active) *)
+Definition xenv_of (P : params) (kf : keyfun) (stk : staking) (id : Z) : xenv :=
+  {| x_P := P; x_kf := kf; x_now := st_time stk; x_self := id |}.
+Definition passed_state (s1 : state) (id : Z) (v : verdict) : state :=
+  set_props s1 (upd_prop id (fun q => tallied q SPassed v) (props s1)).
+
 (* A passed proposal one of whose messages fails — after any number of its earlier messages
-   succeeded on the branch — ends as failed, and the state is exactly the one right after its
-   deposits were paid out: no write of any of its messages survives. *)
+   succeeded on the branch, whatever they did (sends from the module account and deposits into other
+   proposals included) — ends as failed, and the state is exactly the one right after its deposits
+   were paid out: no write of any of its messages survives, no other proposal is touched. *)
 Theorem atomic_execution : forall P kf stk s id p s1 ev pre m post si,
   find_prop id (props s) = Some p -> p_status p = SVoting ->
   passes (tally P kf (custom s) stk p) = true ->
   pay_out s p (burns (tally P kf (custom s) stk p)) = Some (s1, ev) ->
-  p_msgs p = pre ++ m :: post -> exec_msgs s1 pre = Some si -> exec_one si m = None ->
+  p_msgs p = pre ++ m :: post ->
+  exec_msgs (xenv_of P kf stk id) (passed_state s1 id (tally P kf (custom s) stk p)) pre = Some si ->
+  exec_one (xenv_of P kf stk id) si m = None ->
   exists s', process_active P kf stk s id = Some (s', ev) /\
              world s' = world s1 /\
              exists p', find_prop id (props s') = Some p' /\ p_status p' = SFailed /\
                         forall id', id' <> id -> find_prop id' (props s') = find_prop id' (props s).
 Proof.
   intros until si. intros Hf Hs Hp Hpay Hm Hpre Hone.
-  assert (He : exec_msgs s1 (p_msgs p) = None).
+  assert (He : exec_msgs (xenv_of P kf stk id) (passed_state s1 id (tally P kf (custom s) stk p)) (p_msgs p) = None).
   { apply exec_msgs_none. exists pre, m, post, si. auto. }
-  unfold process_active. rewrite Hf, Hs, Hp. rewrite andb_false_r. rewrite Hpay, He.
+  unfold process_active. rewrite Hf, Hs, Hp. rewrite andb_false_r. rewrite Hpay.
+  unfold xenv_of, passed_state in He. rewrite He.
   eexists. split; [reflexivity|]. split; [reflexivity|].
   apply pay_out_some in Hpay as (A & _). cbn [props set_props]. rewrite A.
   eexists. split; [apply find_upd_same; [intros; reflexivity|exact Hf]|]. split; [reflexivity|].
@@ -844,15 +884,15 @@ Theorem all_applied : forall P kf stk s id p s1 ev s2,
   find_prop id (props s) = Some p -> p_status p = SVoting ->
   passes (tally P kf (custom s) stk p) = true ->
   pay_out s p (burns (tally P kf (custom s) stk p)) = Some (s1, ev) ->
-  exec_msgs s1 (p_msgs p) = Some s2 ->
-  exists s', process_active P kf stk s id = Some (s', ev) /\ world s' = world s2 /\
-             exists p', find_prop id (props s') = Some p' /\ p_status p' = SPassed.
+  exec_msgs (xenv_of P kf stk id) (passed_state s1 id (tally P kf (custom s) stk p)) (p_msgs p) = Some s2 ->
+  process_active P kf stk s id = Some (s2, ev) /\
+  exists p', find_prop id (props s2) = Some p' /\ p_status p' = SPassed.
 Proof.
   intros until s2. intros Hf Hs Hp Hpay He.
-  unfold process_active. rewrite Hf, Hs, Hp. rewrite andb_false_r. rewrite Hpay, He.
-  eexists. split; [reflexivity|]. split; [reflexivity|].
-  apply exec_msgs_frame in He as (A2 & _). apply pay_out_some in Hpay as (A & _).
-  cbn [props set_props]. rewrite A2, A.
+  unfold process_active. rewrite Hf, Hs, Hp. rewrite andb_false_r. rewrite Hpay.
+  pose proof He as He'. unfold xenv_of, passed_state in He. rewrite He. split; [reflexivity|].
+  apply exec_msgs_frame in He' as (_ & _ & _ & A2). cbn [x_self xenv_of] in A2. rewrite A2.
+  apply pay_out_some in Hpay as (A & _). unfold passed_state. cbn [props set_props]. rewrite A.
   eexists. split; [apply find_upd_same; [intros; reflexivity|exact Hf]|reflexivity].
 Qed.
 
@@ -869,23 +909,28 @@ Fixpoint burns_of (evs : list event) : Z :=
 Fixpoint refunds_of (evs : list event) : Z :=
   match evs with [] => 0 | EvPay _ _ r _ :: rest => r + refunds_of rest end.
 
-Lemma refund_all_at : forall l b a id,
+Lemma refund_all_at : forall l b a id, a <> gov_acct ->
   refund_all b l a = b a + refunds_to a (map (fun da => EvPay id (fst da) (snd da) 0) l).
 Proof.
-  induction l as [|[d x] r IH]; cbn; intros b a id; [lia|].
-  rewrite (IH _ a id). unfold bal_add. rewrite (Z.eqb_sym d a). destruct (a =? d); lia.
+  induction l as [|[d x] r IH]; cbn; intros b a id Ha; [lia|].
+  destruct (d =? gov_acct) eqn:G.
+  - apply Z.eqb_eq in G. subst d. rewrite (IH _ a id Ha).
+    destruct (gov_acct =? a) eqn:E; [apply Z.eqb_eq in E; congruence|lia].
+  - rewrite (IH _ a id Ha). unfold bal_add. rewrite (Z.eqb_sym d a). destruct (a =? d); lia.
 Qed.
 
+(* refunds reach every depositor's account (the module account's own record is a transfer to itself),
+   burns leave the supply, and the module account is debited by what really left it *)
 Theorem pay_out_accounting : forall s p burn s1 ev,
   pay_out s p burn = Some (s1, ev) ->
-  (forall a, bal s1 a = bal s a + refunds_to a ev) /\
+  (forall a, a <> gov_acct -> bal s1 a = bal s a + refunds_to a ev) /\
   burned s1 = burned s + burns_of ev /\
-  gov_bal s1 = gov_bal s - (refunds_of ev + burns_of ev) /\
+  gov_bal s1 = gov_bal s - (refunds_of ev + burns_of ev) + (if burn then 0 else gov_part (p_deps p)) /\
   refunds_of ev + burns_of ev = sum_deps (p_deps p).
 Proof.
-  unfold pay_out. intros until ev. destruct (gov_bal s <? sum_deps (p_deps p)); [discriminate|].
-  destruct burn; intro H; inversion H; subst; cbn.
-  - assert (A : forall l, (forall a, refunds_to a (map (fun da => EvPay (p_id p) (fst da) 0 (snd da)) l) = 0)
+  unfold pay_out. intros until ev. destruct burn.
+  - destruct (gov_bal s <? sum_deps (p_deps p)); [discriminate|]. intro H; inversion H; subst; cbn.
+    assert (A : forall l, (forall a, refunds_to a (map (fun da => EvPay (p_id p) (fst da) 0 (snd da)) l) = 0)
                       /\ burns_of (map (fun da => EvPay (p_id p) (fst da) 0 (snd da)) l) = sum_deps l
                       /\ refunds_of (map (fun da => EvPay (p_id p) (fst da) 0 (snd da)) l) = 0).
     { induction l as [|[d x] r (I1 & I2 & I3)]; cbn; [auto|]. repeat split.
@@ -893,9 +938,12 @@ Proof.
       - lia.
       - lia. }
     destruct (A (p_deps p)) as (A1 & A2 & A3). repeat split; intros; rewrite ?A1, ?A2, ?A3; lia.
-  - assert (A : forall l, burns_of (map (fun da => EvPay (p_id p) (fst da) (snd da) 0) l) = 0
+  - destruct ((gov_bal s <? before_part (p_deps p) + gov_part (p_deps p)) || (gov_bal s <? sum_deps (p_deps p) - gov_part (p_deps p)));
+      [discriminate|].
+    intro H; inversion H; subst; cbn.
+    assert (A : forall l, burns_of (map (fun da => EvPay (p_id p) (fst da) (snd da) 0) l) = 0
                       /\ refunds_of (map (fun da => EvPay (p_id p) (fst da) (snd da) 0) l) = sum_deps l).
     { induction l as [|[d x] r (I2 & I3)]; cbn; [auto|]. split; lia. }
     destruct (A (p_deps p)) as (A2 & A3). repeat split; intros; rewrite ?A2, ?A3; try lia.
-    apply refund_all_at.
+    now apply refund_all_at.
 Qed.
